@@ -11,6 +11,20 @@ TRUST = ('TLC/SANY (and Apalache where named), the JSON bridge between TLC and t
          'guards the bridge. ')
 
 CHECKS = {
+    'C02': dict(
+        technique='TLA+ aggregator transition system (spec/SafetyCheck.tla: Construct/Begin/Gate/RunCheck/Conclude) model-checked with TLC and every terminal state replayed on a real FileInspector with scripted checks; trait tables as TLA+ reference functions (spec/ImageRef.tla) with the declarative Unsafe list checked against the operational Ref (FailClosed, CleanAccepted) by TLC, every layout built and streamed; CLI exit status on a stratified sample; exception injection into every shipped check',
+        category='model_checking',
+        text='FailClosed / ErrorIsFailure / RefusedWhenUnfit are invariants of the aggregator model over every (complete, match, '
+             'per-check outcome) combination and every check order; all 260 terminal states x 8 exception types are replayed on the '
+             'real safety_check. ImageRef.tla holds, per format, the operational reference and - independently - the property\'s '
+             'list of unsafe traits; TLC proves on ~11k layouts that the reference never accepts an unsafe, incomplete or '
+             'non-matching layout and accepts every clean one, and each layout (each of the 64 feature bits, all versions, every '
+             'ordered pair of descriptor line classes, every footer perturbation, all 6561 boot-flag x type MBR tables, '
+             'truncations) is built and streamed through the real inspector under three chunkings with outcome and failing check '
+             'names compared. The CLI is run on the same images.',
+        design_ref='6/C02',
+        note=TRUST + 'A check returning a reason string instead of raising is treated as passed by the code (modelled, not claimed). '
+             'CLI exit status is not asserted where the inspector raises while streaming (F4/O6). Text-descriptor VMDK is F1.'),
     'C05': dict(
         technique='TLA+ MemoryBound invariant on the capture-engine model (TLC, every stream x chunking); retention caps per format/region in spec/ImageRef.tla with ASSUME CapsWithinBound evaluated by TLC; hostile layouts enumerated by TLC, streamed through the real inspectors, per-chunk context_info validated by Trace_Retention',
         category='model_checking',
